@@ -19,7 +19,7 @@ ASSUMPTIONS = ["nesting and non-tail recursion depth are bounded (host stack)",
                "RefCell borrow state is not modelled: covered by the self-reference cases only"]
 
 KINDS = ["nil", "t", "0", "1", "-1", "9223372036854775807", "-9223372036854775808", "0.0", "-0.0", "1.5", "(/ 1.0 0.0e0)", "NAN",
-         '""', '"a"', "'sym", ":kw", "'(1 2)", "'(1 . 2)", "(lambda (x) x)", "'car", "(make-hash-table)", "'(a b c d)", "3"]
+         '""', '"a"', '"λx"', '"é"', '"😀:"', "'sym", ":kw", "'(1 2)", "'(1 . 2)", "(lambda (x) x)", "'car", "(make-hash-table)", "'(a b c d)", "3"]
 
 def kinds():
     # inf and nan are produced by expt (there is no float division by zero)
